@@ -5,6 +5,9 @@ import sys, subprocess, os
 prop, f, old, new = sys.argv[1:5]
 tier = sys.argv[6] if len(sys.argv) > 6 else "quick"
 p = os.path.join("/repo", f)
+import fcntl
+lockf = open("/tmp/repo.lock", "w")
+fcntl.flock(lockf, fcntl.LOCK_EX)
 s = open(p).read()
 if s.count(old) < 1:
     print("MUTANT NOT APPLICABLE: pattern not found"); sys.exit(3)
